@@ -5,6 +5,9 @@ import (
 	"go/ast"
 	"go/token"
 	"go/types"
+	"os"
+	"path/filepath"
+	"sort"
 	"strings"
 )
 
@@ -145,6 +148,110 @@ func init() {
 			evTypes = append(evTypes, fn+": "+strings.Join(ts, ", "))
 		}
 		sb.WriteString("\ndef factoryEventTypes : List String := " + LeanStrList(evTypes) + "\n")
+		// round 10: the models.StorageState helpers, Replica.Contain, ElectLeader and the node / assignment /
+		// drop handlers with full expressions; the JSON shape of the published state; its consumers
+		_, db, err := ParseFile(repo, "models/database.go")
+		if err != nil {
+			return "", err
+		}
+		type fnRef struct {
+			file       *ast.File
+			recv, name string
+			def        string
+		}
+		for _, fr := range []fnRef{
+			{st, "StorageState", "LeadersOnNode", "leadersOnNodeShape"},
+			{st, "StorageState", "ReplicasOnNode", "replicasOnNodeShape"},
+			{st, "StorageState", "DropDatabase", "dropDatabaseShape"},
+			{st, "StorageState", "NodeOnline", "nodeOnlineShape"},
+			{st, "StorageState", "NodeOffline", "nodeOfflineShape"},
+			{db, "Replica", "Contain", "replicaContainShape"},
+			{el, "replicaLeaderElector", "ElectLeader", "electLeaderShape"},
+			{sm, "stateManager", "initializeShardState", "initializeShardStateShape"},
+			{sm, "stateManager", "onNodeStartup", "onNodeStartupShape"},
+			{sm, "stateManager", "onNodeFailure", "onNodeFailureShape"},
+			{sm, "stateManager", "onStorageNodeStartup", "onStorageNodeStartupShape"},
+			{sm, "stateManager", "onStorageNodeFailure", "onStorageNodeFailureShape"},
+			{sm, "stateManager", "onShardAssignmentChange", "onShardAssignmentChangeShape"},
+			{sm, "stateManager", "onDatabaseCfgDelete", "onDatabaseCfgDeleteShape"},
+		} {
+			fd := FindFunc(fr.file, fr.recv, fr.name)
+			if fd == nil {
+				return "", fmt.Errorf("%s.%s not found", fr.recv, fr.name)
+			}
+			sb.WriteString("\ndef " + fr.def + " : List String := " + LeanStrList(c18StmtShapeFull(fd.Body.List)) + "\n")
+		}
+		// JSON field names of what is published under /storage/state
+		tags := func(f *ast.File, typ string) ([]string, error) {
+			var out []string
+			found := false
+			ast.Inspect(f, func(n ast.Node) bool {
+				ts, ok := n.(*ast.TypeSpec)
+				if !ok || ts.Name.Name != typ {
+					return true
+				}
+				stt, ok := ts.Type.(*ast.StructType)
+				if !ok {
+					return true
+				}
+				found = true
+				for _, fl := range stt.Fields.List {
+					tag := ""
+					if fl.Tag != nil {
+						tag = strings.Trim(fl.Tag.Value, "`")
+					}
+					for _, nm := range fl.Names {
+						out = append(out, nm.Name+" "+types.ExprString(fl.Type)+" "+tag)
+					}
+				}
+				return false
+			})
+			if !found {
+				return nil, fmt.Errorf("struct %s not found", typ)
+			}
+			return out, nil
+		}
+		for _, tr := range []struct {
+			f        *ast.File
+			typ, def string
+		}{{st, "StorageState", "storageStateJSON"}, {st, "ShardState", "shardStateJSON"}, {db, "Replica", "replicaJSON"}} {
+			tg, err := tags(tr.f, tr.typ)
+			if err != nil {
+				return "", err
+			}
+			sb.WriteString("\ndef " + tr.def + " : List String := " + LeanStrList(tg) + "\n")
+		}
+		// the broker-side consumer of the published state: which node a query for a shard is sent to
+		_, bsm, err := ParseFile(repo, "coordinator/broker/state_manager.go")
+		if err != nil {
+			return "", err
+		}
+		for _, fn := range []string{"GetQueryableReplicas", "onStorageStateChange"} {
+			fd := FindFunc(bsm, "stateManager", fn)
+			if fd == nil {
+				return "", fmt.Errorf("broker stateManager.%s not found", fn)
+			}
+			sb.WriteString("\ndef broker" + strings.ToUpper(fn[:1]) + fn[1:] + "Shape : List String := " + LeanStrList(c18StmtShapeFull(fd.Body.List)) + "\n")
+		}
+		// every non-test source file under coordinator/ that names the published key
+		var readers []string
+		_ = filepath.Walk(filepath.Join(repo, "coordinator"), func(path string, info os.FileInfo, err error) error {
+			if err != nil || info.IsDir() || !strings.HasSuffix(path, ".go") || strings.HasSuffix(path, "_test.go") ||
+				strings.HasPrefix(filepath.Base(path), "zz_verif") || strings.HasSuffix(path, "_mock.go") {
+				return nil
+			}
+			b, rerr := os.ReadFile(path)
+			if rerr != nil {
+				return nil
+			}
+			if n := strings.Count(string(b), "constants.StorageStatePath"); n > 0 {
+				rel, _ := filepath.Rel(repo, path)
+				readers = append(readers, fmt.Sprintf("%s x%d", filepath.ToSlash(rel), n))
+			}
+			return nil
+		})
+		sort.Strings(readers)
+		sb.WriteString("\ndef storageStatePathUsers : List String := " + LeanStrList(readers) + "\n")
 		capv := int64(-1)
 		ast.Inspect(FindFunc(sm, "", "NewStateManager"), func(n ast.Node) bool {
 			if ce, ok := n.(*ast.CallExpr); ok {
@@ -168,6 +275,17 @@ func init() {
 
 // c18StmtShape renders the control/statement skeleton of a statement list as a flat token list
 // (logging and metric calls are left out: they do not take part in delivery or publishing).
+// c18FullExpr: render right-hand sides, range variables and conditions with their full expression text
+// (used for the small models.StorageState helpers and the node handlers, where WHICH slice is appended
+// to and WHAT is stored matters)
+var c18FullExpr bool
+
+func c18StmtShapeFull(stmts []ast.Stmt) []string {
+	c18FullExpr = true
+	defer func() { c18FullExpr = false }()
+	return c18StmtShape(stmts)
+}
+
 func c18StmtShape(stmts []ast.Stmt) []string {
 	var out []string
 	isNoise := func(e ast.Expr) bool {
@@ -175,6 +293,9 @@ func c18StmtShape(stmts []ast.Stmt) []string {
 		return strings.Contains(t, ".logger.") || strings.Contains(t, "tatistics.")
 	}
 	rhs := func(e ast.Expr) string {
+		if c18FullExpr {
+			return types.ExprString(e)
+		}
 		switch x := e.(type) {
 		case *ast.CallExpr:
 			return "call " + exprName(x.Fun)
@@ -247,7 +368,18 @@ func c18StmtShape(stmts []ast.Stmt) []string {
 				walk(x.Body.List)
 				out = append(out, "}")
 			case *ast.RangeStmt:
-				out = append(out, "range "+types.ExprString(x.X), "{")
+				if c18FullExpr {
+					kv := ""
+					if x.Key != nil {
+						kv = types.ExprString(x.Key)
+					}
+					if x.Value != nil {
+						kv += "," + types.ExprString(x.Value)
+					}
+					out = append(out, "range "+kv+" := "+types.ExprString(x.X), "{")
+				} else {
+					out = append(out, "range "+types.ExprString(x.X), "{")
+				}
 				walk(x.Body.List)
 				out = append(out, "}")
 			case *ast.SelectStmt:
